@@ -162,10 +162,18 @@ func (s *syncCase) dump(nc *nats.Conn, topParent string) (map[string]data.NodeEd
 	if err != nil {
 		return nil, err
 	}
-	if len(tops) != 1 {
+	if len(tops) == 0 {
 		return out, nil
 	}
-	out["TOP/"+s.devID] = tops[0]
+	// (the device node may have further placements - above it, which is not what is compared: once it has been
+	// shown in a second place upstream, that edge, deleted or not, may be known downstream as well)
+	top := tops[0]
+	for _, t := range tops {
+		if t.Parent == topParent {
+			top = t
+		}
+	}
+	out["TOP/"+s.devID] = top
 	var rec func(id string, depth int) error
 	rec = func(id string, depth int) error {
 		if depth > 40 {
